@@ -60,7 +60,11 @@ class Rig:
         self.market = DeribitOptionMarket(MarketInfo("deribit", MarketTypeEnum.deribit_option), self.tok)
         self.broker.add_market(self.market)
         self.actions = []
-        self.market._record_action_callback = self.actions.append
+        # how a Broker's owner (the Actuator) receives the actions of a market
+        if hasattr(self.market, "_record_action_callback"):
+            self.market._record_action_callback = self.actions.append
+        else:
+            self.market._record_action = self.actions.append
         if price is None:
             price = float(instrs[0]["underlying"]) if instrs else 1600.0
         if via_frame and instrs:
@@ -132,7 +136,7 @@ def dump_book(df: pd.DataFrame):
 
 def frame_cells(rig):
     """the order-book cells of the frame the market was given (None when the book was handed over directly)"""
-    df = rig.market._data
+    df = getattr(rig.market, "data", None)
     if df is None:
         return None
     return [(str(ix), copy.deepcopy(r["asks"]), copy.deepcopy(r["bids"])) for ix, r in df.iterrows()]
@@ -154,6 +158,49 @@ def has_nan(x) -> bool:
     return False
 
 
+# ---- private state of the market.  Everything the properties observe is read through the public API (balance, positions, market_status,
+# get_market_balance(), recorded actions).  The one piece of private state the *model* needs in order to be stepped from the implementation's
+# state is the cached valuation (it decides what get_market_balance() answers on the closed minutes of an hour).  It is looked up by what
+# it is, not by its name: the attribute that turns into an OptionMarketBalance when a market values itself.  If no such attribute can be
+# identified the cache is "unknown": the state comparison leaves it out and reads between the hours are compared through the oracle only.
+_CACHE_ATTR = "unset"
+
+
+def cache_attr():
+    global _CACHE_ATTR
+    if _CACHE_ATTR != "unset":
+        return _CACHE_ATTR
+    _CACHE_ATTR = None
+    try:
+        from demeter.deribit import OptionMarketBalance
+        probe = Rig([], now=360)
+        before = {k: v for k, v in vars(probe.market).items()}
+        probe.market.get_market_balance()
+        changed = [k for k, v in vars(probe.market).items()
+                   if isinstance(v, OptionMarketBalance) and not isinstance(before.get(k), OptionMarketBalance)]
+        if len(changed) == 1:
+            _CACHE_ATTR = changed[0]
+    except Exception:  # noqa: BLE001 — then the cache stays unknown
+        _CACHE_ATTR = None
+    return _CACHE_ATTR
+
+
+def read_cache(m):
+    """(known?, cached OptionMarketBalance or None)"""
+    a = cache_attr()
+    if a is None or not hasattr(m, a):
+        return False, None
+    return True, getattr(m, a)
+
+
+def market_prices(m):
+    """the price row the market was given with its status (public `price_status` if there is one)"""
+    for a in ("price_status", "_price_status"):
+        if hasattr(m, a):
+            return getattr(m, a)
+    return None
+
+
 def dump_state(rig: Rig):
     m = rig.market
     pos = []
@@ -163,7 +210,7 @@ def dump_state(rig: Rig):
                     "avgSell": F(p.avg_sell_price), "sellAmt": F(p.sell_amount)})
     price, price_dec = 0, False
     try:
-        pv = m._price_status[rig.tok.name]
+        pv = market_prices(m)[rig.tok.name]
         price_dec = isinstance(pv, Decimal)
         price = F(pv) if price_dec else F(float(pv))
     except Exception:
@@ -171,7 +218,7 @@ def dump_state(rig: Rig):
     return {
         "cash": F(m.balance), "positions": pos, "book": dump_book(m.market_status.data),
         "wallet": [[k.name, F(v.balance)] for k, v in rig.broker._assets.items()],
-        "allowNeg": bool(rig.broker.allow_negative_balance), "cache": dump_balance(m._balance_cache),
+        "allowNeg": bool(rig.broker.allow_negative_balance), "cache": dump_balance(read_cache(m)[1]) if read_cache(m)[0] else "unknown",
         "flagOpen": bool(m.is_open), "now": minutes(m.market_status.timestamp), "price": price, "priceDec": price_dec,
     }
 
@@ -284,6 +331,8 @@ def norm_state(s):
 
 
 def step_request(state, op, token="ETH", ctx="py", flt="ieee"):
+    if state.get("cache") == "unknown":
+        state = dict(state, cache=None)
     return {"fn": "step", "cfg": token, "ctx": ctx, "float": flt, "state": canon(state), "op": canon(op_json(op))}
 
 
@@ -332,8 +381,13 @@ def compare_step(ctx, tag, before, op, impl_out, impl_res, impl_after, impl_acti
     if ans["outcome"] != impl_out:
         ctx.disagree(f"{tag}: outcome impl {impl_out} model {ans['outcome']} ({ans.get('cause')})", replay)
         return False
+    unknown_cache = isinstance(impl_after, dict) and impl_after.get("cache") == "unknown"
+    if unknown_cache:
+        impl_after = {k: v for k, v in impl_after.items() if k != "cache"}
+        ans = dict(ans, state={k: v for k, v in ans["state"].items() if k != "cache"})
+        ctx.count("steps_compared_without_cache")
     d = diff(impl_after, ans["state"], "state")
-    if d is None and impl_out == "ok":
+    if d is None and impl_out == "ok" and not (unknown_cache and isinstance(impl_res, dict) and "netValue" in impl_res and impl_after["now"] % 60 != 0):
         d = diff(impl_res, ans["result"], "result")
     if d is None:
         d = diff(impl_actions, ans["actions"], "actions")
